@@ -23,6 +23,10 @@ RULE = (
     "[B]); every model is built from its JSON specification. Non-trivial = some t > 0 and, for models with "
     "parameters, non-uniform frequencies and (multi-rate models) non-equal rates. Distinct = (model, sizes, "
     "mapping / genetic code, shapes, parameters and branch lengths rounded to 6 significant digits). "
+    "'history' keeps ONE model object per case: evaluate, then 2-4 rounds of updating rates and/or frequencies "
+    "(MG94: any subset of kappa/alpha/beta) through Parameter.tensor = ... or in-place + fire_parameter_changed, "
+    "sometimes several updates before the next evaluation, re-checking clauses (a)-(e) against the oracle at the "
+    "current values after the updates (non-trivial there = an evaluation after a real change of value at a non-trivial state). "
     "'codes' enumerates all 15 genetic codes at two parameter points; 'unit' repeats the repository's own "
     "MG94 assertion for every code; 'single_matrix' is the one-matrix shape of the non-symmetric model."
 )
@@ -44,6 +48,9 @@ ASSUMPTIONS = [
     "branch lengths only the values are compared (the non-symmetric model returns [1,1,k,k] / [1,B,k,k] there)",
     "parameters with different sample shapes inside one model are generated only as 'rates batched, frequencies shared', which "
     "the q() builders handle explicitly; other mixtures are C10's subject",
+    "histories update parameters only through the public interface and always notify (assignment to Parameter.tensor, or "
+    "in-place copy followed by fire_parameter_changed); updates keep the shape of the parameter; an in-place change without "
+    "notification is not generated (staleness would be legitimate)",
     "normalize=false of the non-symmetric model is not generated (the property demands the normalised matrix)",
 ]
 
@@ -189,6 +196,36 @@ def codon_cases(draw):
     c["rates"] = [_rates(draw, 3, degenerate) for _ in range(n)]  # kappa, alpha, beta
     c["freqs"] = [_freqs(draw, k, degenerate) for _ in range(n if c["fbatch"] else 1)]
     return draw(_times(c, max_b=2, max_k=2, only_bk=draw(st.booleans())))
+
+
+@st.composite
+def history_cases(draw):
+    """one model object, evaluated, then 2-4 rounds of parameter updates through the public
+    interface (Parameter.tensor = ..., or in-place + fire_parameter_changed) and re-evaluation"""
+    base = draw(st.one_of(nucleotide_cases(), general_cases(), general_cases(), codon_cases(), empirical_cases()))
+    c = dict(base)
+    model = c["model"]
+    n = _n(c["ss"])
+    rounds = []
+    nrounds = draw(st.integers(2, 4))
+    for r in range(nrounds):
+        u = {"t": [draw(_tval()) for _ in range(c["B"] * c["K"])]}
+        if model not in PARAM_FREE:
+            what = draw(st.sampled_from(["rates", "rates", "freqs", "both"]))
+            u["mode"] = draw(st.sampled_from(["assign", "assign", "inplace"]))
+            if what in ("rates", "both"):
+                nr = len(c["rates"][0])
+                u["rates"] = [_rates(draw, nr) for _ in range(n)]
+                if model == "MG94":  # kappa, alpha, beta are three parameter objects
+                    u["cols"] = draw(st.sampled_from([[0], [1], [2], [0, 1], [0, 2], [1, 2], [0, 1, 2]]))
+            if what in ("freqs", "both"):
+                k = len(c["freqs"][0])
+                u["freqs"] = [_freqs(draw, k) for _ in range(len(c["freqs"]))]
+            # several updates may pile up before the next evaluation; the last round always evaluates
+            u["evaluate"] = True if r == nrounds - 1 else draw(st.sampled_from([True, True, True, False]))
+        rounds.append(u)
+    c["rounds"] = rounds
+    return c
 
 
 def codes_enum(tier):
@@ -369,43 +406,17 @@ def _band(x, edges, names):
     return names[-1]
 
 
-# --------------------------------------------------------------------------- the check
-def body(c):
-    if c.get("unit"):
-        return body_unit(c)
+def _check_state(c, m, res, key, out):
+    """clauses (a)-(e) for model object m against the oracle at the parameter values and
+    branch lengths recorded in c; returns res (with a failure) or None; leaves the model's
+    matrices in `out`"""
     model = c["model"]
     ss = tuple(c["ss"])
     n = _n(ss)
-    batch = "none" if not ss else ("full" if c["fbatch"] else "partial")
-    m, _ = tt.build(spec_of(c))
     tfull, tper = times_of(c)
     nt = tper.shape[1]
     single = model == "GeneralNonSymmetric" and tfull.size == 1
     tolP = TOL_P_SINGLE if single else TOL_P
-    tags = {"model": model, "batch": batch, "tshape": c["tshape"], "single_matrix": bool(single)}
-    if "k" in c:
-        tags["states"] = c["k"]
-    if model == "MG94":
-        tags["code"] = c["code"]
-    if "mapping" in c:
-        tags["mapping"] = "default" if c["mapping"] is None else "given"
-
-    # ---- non-triviality and identity
-    anypos = bool(np.any(tper > 0))
-    nonuni = uneq = True
-    if model in PARAM_FREE:
-        nontrivial = anypos
-    else:
-        fr = np.asarray(c["freqs"], dtype=float)
-        ra = np.asarray(c["rates"], dtype=float)
-        nonuni = bool(np.all(fr.max(axis=1) / fr.min(axis=1) > 1.0 + 1e-6))
-        multi = ra.shape[1] > 1
-        uneq = bool(np.all(ra.max(axis=1) / ra.min(axis=1) > 1.0 + 1e-6)) if multi else True
-        nontrivial = anypos and nonuni and uneq
-    key = (model, c.get("k"), c.get("code"), c.get("mapping"), c["ss"], c["fbatch"], c["tshape"], c["B"], c["K"],
-           _sig(c.get("rates")), _sig(c.get("freqs")), _sig(c["t"]), _sig(c["tfac"]))
-    why = "nontrivial" if nontrivial else ("trivial:all-t-zero" if not anypos else ("trivial:uniform-frequencies" if not nonuni else "trivial:equal-rates"))
-    res = Res(nontrivial=nontrivial, key=key, labels=(model, "batch:" + batch, "t:" + c["tshape"], why), tags=tags)
 
     # ---- the model's own rate matrix and frequencies
     Qm = arr(m.q())
@@ -541,6 +552,61 @@ def body(c):
             if not e <= TOL_P:
                 return res.fail("mismatch", dict(d, t=tv, err=e, what="semigroup triple"), tband=_band(tv, [1e-4, 1e-1, 10], ["<1e-4", "<1e-1", "<10", ">=10"]))
 
+    out.update(Qs=Qs, pis=pis, Ps=Ps, k=k)
+    return None
+
+
+# --------------------------------------------------------------------------- the check
+def _classify(c):
+    """tags, non-triviality, identity and labels of a (single-state) case"""
+    model = c["model"]
+    ss = tuple(c["ss"])
+    batch = "none" if not ss else ("full" if c["fbatch"] else "partial")
+    tfull, tper = times_of(c)
+    single = model == "GeneralNonSymmetric" and tfull.size == 1
+    tags = {"model": model, "batch": batch, "tshape": c["tshape"], "single_matrix": bool(single)}
+    if "k" in c:
+        tags["states"] = c["k"]
+    if model == "MG94":
+        tags["code"] = c["code"]
+    if "mapping" in c:
+        tags["mapping"] = "default" if c["mapping"] is None else "given"
+    anypos = bool(np.any(tper > 0))
+    nonuni = uneq = True
+    if model in PARAM_FREE:
+        nontrivial = anypos
+    else:
+        fr = np.asarray(c["freqs"], dtype=float)
+        ra = np.asarray(c["rates"], dtype=float)
+        nonuni = bool(np.all(fr.max(axis=1) / fr.min(axis=1) > 1.0 + 1e-6))
+        multi = ra.shape[1] > 1
+        uneq = bool(np.all(ra.max(axis=1) / ra.min(axis=1) > 1.0 + 1e-6)) if multi else True
+        nontrivial = anypos and nonuni and uneq
+    key = (model, c.get("k"), c.get("code"), c.get("mapping"), c["ss"], c["fbatch"], c["tshape"], c["B"], c["K"],
+           _sig(c.get("rates")), _sig(c.get("freqs")), _sig(c["t"]), _sig(c["tfac"]))
+    why = "nontrivial" if nontrivial else ("trivial:all-t-zero" if not anypos else ("trivial:uniform-frequencies" if not nonuni else "trivial:equal-rates"))
+    labels = (model, "batch:" + batch, "t:" + c["tshape"], why)
+    return tags, nontrivial, key, labels
+
+
+def body(c):
+    if c.get("unit"):
+        return body_unit(c)
+    model = c["model"]
+    ss = tuple(c["ss"])
+    n = _n(ss)
+    m, _ = tt.build(spec_of(c))
+    tfull, tper = times_of(c)
+    nt = tper.shape[1]
+    tags, nontrivial, key, labels = _classify(c)
+    single = tags["single_matrix"]
+    tolP = TOL_P_SINGLE if single else TOL_P
+    res = Res(nontrivial=nontrivial, key=key, labels=labels, tags=tags)
+    out = {}
+    if _check_state(c, m, res, key, out) is not None:
+        return res
+    Qs, pis, Ps, k = out["Qs"], out["pis"], out["Ps"], out["k"]
+
     # ---------------- MG94: parameter-effect relations
     if model == "MG94":
         f = _mg94_effects(c, res, Qs, pis, n, k)
@@ -561,6 +627,97 @@ def body(c):
                 return res.fail("batch_vs_slice", {"slice": i, "err": e})
             if _relerr(arr(mi.q()), Qs[i]) > 1e-13:
                 return res.fail("batch_vs_slice_q", {"slice": i})
+    return res
+
+
+def _param_objects(c, dic):
+    """the Parameter objects of the built model, by role"""
+    model = c["model"]
+    if model == "HKY":
+        return {"rates": [(dic["kappa"], None)], "freqs": dic["f"]}
+    if model == "MG94":
+        return {"rates": [(dic["kappa"], 0), (dic["alpha"], 1), (dic["beta"], 2)], "freqs": dic["f"]}
+    return {"rates": [(dic["rates"], None)], "freqs": dic["f"]}
+
+
+def _set(param, values, mode):
+    new = torch.tensor(values)
+    if mode == "inplace":
+        if tuple(param.tensor.shape) != tuple(new.shape):
+            raise AssertionError("harness: in-place update with another shape")
+        param.tensor.copy_(new)
+        param.fire_parameter_changed()
+    else:
+        param.tensor = new
+
+
+def body_history(c):
+    """clauses (a)-(e) on ONE model object along a history: evaluate, update parameters
+    through the public interface, evaluate again ...; the oracle always uses the current values"""
+    model = c["model"]
+    ss = c["ss"]
+    cur = {k: v for k, v in c.items() if k != "rounds"}
+    m, dic = tt.build(spec_of(cur))
+    tags, nt0, key0, labels0 = _classify(cur)
+    tags = dict(tags, history=True)
+    rounds = c["rounds"]
+    key = (key0, [(u.get("mode"), u.get("cols"), _sig(u.get("rates")), _sig(u.get("freqs")), _sig(u["t"]), u.get("evaluate", True)) for u in rounds])
+    res = Res(nontrivial=False, key=key, tags=tags)
+    out = {}
+    if _check_state(cur, m, res, key, out) is not None:
+        res.fails[-1].tags.update(stage="initial")
+        res.fails[-1].detail["round"] = 0
+        return res
+    objs = _param_objects(cur, dic) if model not in PARAM_FREE else None
+    changed_and_checked = 0
+    pending = set()
+    modes, kinds = set(), set()
+    for r, u in enumerate(rounds, start=1):
+        cur = dict(cur, t=list(u["t"]))
+        if objs is not None:
+            mode = u["mode"]
+            modes.add(mode)
+            if "rates" in u:
+                cols = u.get("cols")
+                newr = [list(row) for row in cur["rates"]]
+                for i in range(len(newr)):
+                    for j in range(len(newr[i])):
+                        if cols is None or j in cols:
+                            newr[i][j] = u["rates"][i][j]
+                if newr != cur["rates"]:
+                    pending.add("rates")
+                cur["rates"] = newr
+                ra = np.asarray(newr, dtype=float)
+                for pobj, col in objs["rates"]:
+                    if col is None:
+                        _set(pobj, _shaped(newr, ss, bool(ss)), mode)
+                    elif col in cols:
+                        v = ra[:, col:col + 1]
+                        _set(pobj, v.reshape(tuple(ss) + (1,)).tolist() if ss else v[0].tolist(), mode)
+            if "freqs" in u:
+                if u["freqs"] != cur["freqs"]:
+                    pending.add("freqs")
+                cur["freqs"] = [list(x) for x in u["freqs"]]
+                _set(objs["freqs"], _shaped(cur["freqs"], ss, bool(ss) and cur["fbatch"]), mode)
+        if not u.get("evaluate", True):
+            continue
+        if _check_state(cur, m, res, key, out) is not None:
+            upd = "+".join(sorted(pending)) or "none"
+            res.fails[-1].tags.update(stage="after_update", updated=upd, mode=u.get("mode", "none"))
+            res.fails[-1].detail["round"] = r
+            return res
+        _, nt_r, _, _ = _classify(cur)
+        if model in PARAM_FREE:
+            changed_and_checked += int(nt_r)
+        elif pending and nt_r:
+            changed_and_checked += 1
+        kinds |= pending
+        pending = set()
+    # non-trivial: at least one evaluation after a real change of value, at a non-trivial state
+    # (parameter-free models: a non-trivial evaluation before and after)
+    res.nontrivial = changed_and_checked >= 1 and (model not in PARAM_FREE or nt0)
+    res.labels = (model, labels0[1], "rounds:%d" % len(rounds)) + tuple("mode:" + x for x in sorted(modes)) + tuple("updated:" + x for x in sorted(kinds)) + (
+        ("nontrivial",) if res.nontrivial else ("trivial",))
     return res
 
 
@@ -712,6 +869,7 @@ def subchecks(tier):
         Sub("single_matrix", body, strategy=single_matrix_cases, quick=160, thorough=3000, pretags=_pretags),
         Sub("empirical", body, strategy=empirical_cases, quick=80, thorough=1200, pretags=_pretags),
         Sub("codon", body, strategy=codon_cases, quick=240, thorough=3000, pretags=_pretags),
+        Sub("history", body_history, strategy=history_cases, quick=400, thorough=8000, pretags=_pretags),
         Sub("codes", body, enumerate=codes_enum, exhaustive=True, pretags=_pretags),
         Sub("unit", body, enumerate=unit_enum, exhaustive=True, pretags=_pretags),
     ]
